@@ -56,7 +56,9 @@ func c02Spec(c c02Case) Spec {
 
 // c02Run executes one case. With countOnly it runs fault-free and returns the number of calls
 // granted in the two-tick window after convergence.
-func c02Run(r *vt.Run, c c02Case, countOnly bool) (window int) { return c02RunFor(r, "C02", c, countOnly) }
+func c02Run(r *vt.Run, c c02Case, countOnly bool) (window int) {
+	return c02RunFor(r, "C02", c, countOnly)
+}
 
 // c02RunFor runs the daemon scenario and reports under property prop: "C02" reports the
 // single-fault clauses, "C03" only clause 7 (only the lock holder acts; part B of C03).
@@ -341,7 +343,6 @@ func checkC02(r *vt.Run) {
 		}
 	}
 }
-
 
 // checkC03B: part B of C03 in daemon mode - every cluster-wide action must come from the process
 // that owns the lock znode at that instant; scenarios: the manager host is isolated / loses
